@@ -526,6 +526,8 @@ def check(prop: str, tier: str, replay_path: Optional[str]) -> int:
         extra["compu"] = _c03_compu(v, tier)
     if prop == "C05":
         extra["layers"] = _c05_layers(v, tier, seed())
+    if prop in ("C01", "C08"):
+        extra["system_parameters"] = _system_parameters(v, prop)
     for (what, d) in divs[:5]:
         v.diverge(what, {"detail": json.loads(json.dumps(d, default=str))})
     ncases = sum(len(r["cases"]) for r in recs)
@@ -583,6 +585,66 @@ def _c03_compu(v: Any, tier: str, only_cm: Any = None) -> Dict[str, Any]:
                                            "record": {"cm": rec["cm"]}})
     print(f"[C03] compu round trip: {len(recs)} configurations, {inj} injective, {n} failures", flush=True)
     return {"configurations": len(recs), "injective": inj, "states": res.distinct}
+
+
+SYSTEM_KINDS = {
+    # predefined SYSPARAM -> (bits, base type, what the clock prescribes)
+    "SECOND": (8, "A_UINT32", lambda t: t.second), "MINUTE": (8, "A_UINT32", lambda t: t.minute), "HOUR": (8, "A_UINT32", lambda t: t.hour),
+    "DAY": (8, "A_UINT32", lambda t: t.day), "WEEK": (8, "A_UINT32", lambda t: t.isocalendar()[1]), "MONTH": (8, "A_UINT32", lambda t: t.month),
+    "YEAR": (16, "A_UINT32", lambda t: t.year), "CENTURY": (8, "A_UINT32", lambda t: t.year // 100),
+}
+
+
+def _system_parameters(v: Any, prop: str) -> Dict[str, int]:
+    """SYSTEM parameters of the predefined kinds (values the library derives from the clock): not required, settable, an
+    encoding without them succeeds and decodes to what the clock showed between the start and the end of the call; an
+    explicit value wins.  (The codec reference has no clock: the accepted set is computed from the two time stamps.)"""
+    from datetime import datetime
+    from . import odxgen as og
+    lay = og.Layer("BASE-VARIANT", "BV", "BV")
+    ps = [og.p_const8("sid", 0x22, bytepos=0)]
+    for k, (name, (bits, base, _f)) in enumerate(sorted(SYSTEM_KINDS.items())):
+        lay.dops.append(og.dop(f"D.{name}", f"d_{name}", og.dct_standard(base, bits)))
+        ps.append(og.p_system(name.lower(), name, f"D.{name}"))
+    lay.requests.append(og.request("RQ.sys", "RQsys", ps))
+    st = {"system_kinds": 0, "system_encodes": 0}
+    try:
+        rq = og.load([og.container("DLC", "DLC", [lay])]).base_variants[0].diag_layer_raw.requests.RQsys
+    except Exception as e:  # noqa: BLE001
+        v.fail("description_does_not_load", {"machine": "Codec", "entry": "system parameters", "detail": {"exc": f"{type(e).__name__}: {e}"[:200]},
+                                             "ps": [], "rq": [], "outside_mask": False})
+        return st
+    names = [n.lower() for n in sorted(SYSTEM_KINDS)]
+    case = {"machine": "Codec", "entry": "system parameters", "ps": [], "rq": [], "outside_mask": False, "dop_kinds": ["system"]}
+    if prop == "C08":
+        req = {p.short_name for p in rq.required_parameters}
+        free = {p.short_name for p in rq.free_parameters}
+        st["system_kinds"] = len(names)
+        if req & set(names):
+            v.fail("required_but_omission_accepted", {**case, "detail": {"reported_required": sorted(req & set(names))}})
+        if set(names) - free:
+            v.fail("free_missing", {**case, "detail": {"not_reported_free": sorted(set(names) - free)}})
+    for rounds in range(3):
+        t0 = datetime.now()
+        try:
+            pdu = bytes(rq.encode())
+            dec = rq.decode(pdu)
+        except Exception as e:  # noqa: BLE001
+            v.fail("not_required_but_omission_fails" if prop == "C08" else "decode_of_own_encoding_raises",
+                   {**case, "detail": {"exc": f"{type(e).__name__}: {e}"[:200]}})
+            return st
+        t1 = datetime.now()
+        st["system_encodes"] += 1
+        if prop == "C01":
+            for name, (_b, _t, f) in SYSTEM_KINDS.items():
+                if dec[name.lower()] not in (f(t0), f(t1)):
+                    v.fail("round_trip", {**case, "detail": {"param": name, "decoded": dec[name.lower()], "clock": [f(t0), f(t1)],
+                                                             "real_pdu": pdu.hex()}})
+            # an explicit value wins and comes back
+            dec2 = rq.decode(bytes(rq.encode(year=1999, second=59)))
+            if (dec2["year"], dec2["second"]) != (1999, 59):
+                v.fail("round_trip", {**case, "detail": {"supplied": {"year": 1999, "second": 59}, "decoded": [dec2["year"], dec2["second"]]}})
+    return st
 
 
 def _c04_compu(v: Any, tier: str, only_cm: Any = None) -> Dict[str, Any]:
